@@ -29,7 +29,7 @@ THRESHOLDS = {"quick": {**{f"c05:{f}:{c}": 30 for f in FORMATS for c in ("memory
                         "c05:collection-empty-member": 10, "c05:no-meta-at-all": 30, "c05:precollected": 30, "c05:with-meta": 100,
                         "c05:len>=100": 8, "c05:one-cell-solution": 30, "c05:two-cell-solution": 30, "c05:meta-keys-compared": 100,
                         "c05:auto-picked-minimal": 20, "c05:auto-picked-full": 20,
-                        "c05:solution>127-cells": 20, "c05:solution>255-cells": 3}}
+                        "c05:solution>127-cells": 20, "c05:solution>255-cells": 3, "c05:len>127": 8, "c05:total-solution-cells>32767": 8}}
 THRESHOLDS["thorough"] = dict(THRESHOLDS["quick"])
 ANCHORS = ["maze_dataset.dataset.maze_dataset:MazeDataset.serialize", "maze_dataset.dataset.maze_dataset:MazeDataset.load",
            "maze_dataset.dataset.maze_dataset:MazeDataset._load_full", "maze_dataset.dataset.maze_dataset:MazeDataset._load_minimal",
@@ -125,6 +125,16 @@ def build_dataset(ctx, rng, j):
         kind = 3
         g = int(rng.integers(12, 18))  # long corridors: solutions of > 127 and > 255 cells (storage dtypes of the minimal formats)
         n = int(rng.integers(2, 5))
+    if j % 29 == 3:
+        # many mazes (more than 127 / 255): index and length columns of the minimal formats
+        n = [130, 260, 300][(j // 29) % 3]
+        g = int(rng.integers(2, 5))
+        kind = (j // 29) % 3
+        tags.append("len>127")
+    if j % 40 == 11:
+        # total solution length past 32767 cells (offsets of the concatenated-solutions format)
+        kind, g, n = 3, 17, 120
+        tags.append("total-solution-cells>32767")
     with warnings.catch_warnings():
         warnings.simplefilter("ignore")
         if kind in (0, 1, 2):
@@ -146,15 +156,15 @@ def build_dataset(ctx, rng, j):
             # harness-built mazes: ragged solutions incl. one-cell, two-cell and maximal paths, no generation metadata
             mazes = []
             for t in range(n):
-                fam = ["tree", "cyc3", "perc6", "serpentine"][t % 4] if g < 12 else ["serpentine", "tree"][t % 2]
+                fam = ["tree", "cyc3", "perc6", "serpentine"][t % 4] if g < 12 else (["serpentine", "tree"][t % 2] if n < 100 else "serpentine")
                 _, cl = ref.random_structure(g, g, rng, fam)
                 gr = Graph(cl)
                 cells = ref.all_cells(g, g)
                 s = cells[int(rng.integers(len(cells)))]
                 comp = sorted(gr.component_of(s))
-                if t % 5 == 0:
+                if t % 5 == 0 and n < 100:
                     e = s; tags.append("one-cell-solution")
-                elif t % 5 == 1 and gr.adj[s]:
+                elif t % 5 == 1 and gr.adj[s] and n < 100:
                     e = gr.adj[s][0]; tags.append("two-cell-solution")
                 elif fam == "serpentine":
                     s, e = (0, 0), ((g - 1), (g - 1) if g % 2 else 0)
@@ -311,7 +321,7 @@ def collections(ctx, j, rng):
 
 
 def run(ctx):
-    n_ds = 160 if ctx.quick else 3000
+    n_ds = 200 if ctx.quick else 3000
     for j in range(n_ds):
         if not ctx.mine(j):
             continue
